@@ -543,7 +543,88 @@ def refuses_includes(f, parent_p):
     return t.get("k") == "Call" and short(callee_of(t) or "") == "Err"
 
 
-@rule("C15", "C15.c.reimport-guard", floor=2)
+NORMALISERS = {"canonicalize", "to_lowercase", "to_uppercase", "to_ascii_lowercase", "read_link", "absolute", "normalize", "components"}
+
+
+def _c15c_walk_details(F, R, f, name, guard, parent_p):
+    """two further clauses of a live ancestry guard: the walk starts at the including file unconditionally, and the two paths it compares are in the same normal form"""
+    body = f["hir"]["value"]
+    lets = {}
+    for st in walk(body, pats=False):
+        if st.get("k") == "Let" and st["pat"].get("k") == "PBinding" and st.get("init") is not None:
+            lets.setdefault(st["pat"]["name"], st)
+    # the cursor of the walk: the local that the `while let Some(id) = CUR` loop scrutinises
+    cur = None
+    for lp in walk(body, pats=False):
+        if lp.get("k") == "Loop" and any(x is guard for x in walk(lp, pats=False)):
+            iff = peel(lp["body"].get("expr") or {})
+            cnd = peel_cond(iff.get("cond")) if iff.get("k") == "If" else None
+            if cnd is not None and cnd.get("k") == "LetExpr" and peel(cnd["init"]).get("k") == "Path":
+                cur = peel(cnd["init"]).get("res")
+    if cur is None or cur not in lets:
+        R.bad(f"{name}|walk-start", f"UNEXTRACTABLE: the cursor of {name}'s ancestry walk is not a local with an initialiser", loc(guard))
+    else:
+        init = peel(lets[cur]["init"])
+        while init.get("k") == "MethodCall" and init["name"] in ("clone", "copied", "cloned") and not init["args"]:
+            init = peel(init["recv"])
+        if init.get("k") == "Path" and init.get("res") == parent_p:
+            R.ok(f"{name}|walk-start", detail=f"the walk starts at the including file (`{parent_p}`) for every import", where=loc(lets[cur]))
+        else:
+            R.bad(f"{name}|walk-start", f"the ancestry walk starts from `{ekey(init)[:70]}`, not unconditionally from the including file `{parent_p}`: whenever the short-cut skips the walk (a cycle closed through another spelling of the path - `./main.s`, `../dir/main.s`) the cycle is followed instead of being reported", loc(lets[cur]))
+
+    def norms(e, depth=0, seen=None):
+        seen = seen if seen is not None else set()
+        out = set()
+        for m in walk(e, pats=False):
+            if m.get("k") in ("MethodCall", "Call"):
+                nm = m.get("name") or short(callee_of(m) or "")
+                if nm in NORMALISERS:
+                    out.add(nm)
+            if m.get("k") == "Path" and m.get("res_kind") == "Local" and m.get("res") in lets and m["res"] not in seen and depth < 4:
+                seen.add(m["res"])
+                out |= norms(lets[m["res"]]["init"], depth + 1, seen)
+        return out
+
+    c = guard["cond"]
+    sites = 0
+    for n in walk(c, pats=False):
+        if n.get("k") == "Binary" and n["op"] in ("Eq", "Ne"):
+            sites += 1
+            a, b = norms(n["a"]), norms(n["b"])
+            if a == b:
+                R.ok(f"{name}|comparison", detail=f"both paths compared in the same form ({sorted(a) or 'as written'})", where=loc(n))
+            else:
+                R.bad(f"{name}|comparison", f"the ancestry test compares a path normalised by {sorted(a) or 'nothing'} with one normalised by {sorted(b) or 'nothing'}: two spellings of one file (through `..`, a symbolic link) never compare equal, so a cycle that closes through such a spelling is followed for ever", loc(n))
+        if n.get("k") == "Call" and peel(n["f"]).get("k") == "Path" and peel(n["f"]).get("res_kind") == "Local" and peel(n["f"]).get("res") in lets and len(n["args"]) == 2:
+            cl = peel(lets[peel(n["f"])["res"]]["init"])
+            if cl.get("k") != "Closure":
+                continue
+            sites += 1
+            ps = [[x["name"] for x in walk(p_) if x.get("k") == "PBinding"] for p_ in cl.get("params") or []]
+            if len(ps) != 2 or not all(len(x) == 1 for x in ps):
+                R.bad(f"{name}|comparison", "UNEXTRACTABLE: path comparator parameters", loc(cl))
+                continue
+            pa, pb = ps[0][0], ps[1][0]
+            cnt = {pa: set(), pb: set()}
+            for m in walk(cl["body"], pats=False):
+                if m.get("k") in ("MethodCall", "Call"):
+                    nm = m.get("name") or short(callee_of(m) or "")
+                    if nm in NORMALISERS:
+                        for x in walk(m, pats=False):
+                            if x.get("k") == "Path" and x.get("res") in cnt:
+                                cnt[x["res"]].add(nm)
+            outer_a, outer_b = norms(n["args"][0]), norms(n["args"][1])
+            if cnt[pa] | outer_a == cnt[pb] | outer_b:
+                R.ok(f"{name}|comparison", detail=f"the comparator treats both paths alike ({sorted(cnt[pa] | outer_a) or 'as written'})", where=loc(cl))
+            else:
+                R.bad(f"{name}|comparison", f"the path comparator normalises its arguments differently ({sorted(cnt[pa] | outer_a)} vs {sorted(cnt[pb] | outer_b)}): two spellings of one file never compare equal", loc(cl))
+    if sites == 0:
+        R.bad(f"{name}|comparison", f"UNEXTRACTABLE: no path comparison found in {name}'s ancestry test", loc(guard))
+
+
+
+@rule("C06", "C06.i.include-cycles-are-cut", floor=4)
+@rule("C15", "C15.c.reimport-guard", floor=4)
 def c15c(F, R):
     """sibling check of FileReader::import_file impls: re-import detection must be live and depend on the path (or the reader must refuse every include)"""
     impls = [i for i in F.impls if (i.get("trait") or "").split("::")[-1] == "FileReader"]
@@ -621,6 +702,7 @@ def c15c(F, R):
             R.bad(f"{name}|not-ancestry", f"{name}::import_file's FileAlreadyRead guard does not walk the chain of including files (parent of the parent ..): a cycle through two or more files is not detected", loc(guard))
         else:
             R.ok(f"{name}", detail=f"{name}: FileAlreadyRead is answered while walking the chain of including files and comparing each with the imported path")
+            _c15c_walk_details(F, R, f, name, guard, parent_p)
 
 
 @rule("C15", "C15.d.include-relative-to-its-own-file", floor=4)
